@@ -780,9 +780,36 @@ def whenStep (s : Sig) (isM : Bool) (w : WS) : Step → WS × R Unit
 def lookupCheck (name : String) (found : Bool) : R Unit :=
   if name = "" then rStr .methodEmpty else if !found then rStr .methodNotFound else pure ()
 
+/-- mocker.go (DefMocker/MethodMocker `Returns`): `if len(values) == 0 { return m.Return() }` — a FIRST `Returns()` without
+    values is `Return()` (on a mocker that already has a `When` it goes to `(*When).Returns`, which adds nothing) -/
+def normFirst : Step → Step
+  | .returns [] => .ret none
+  | st => st
+
+/-- the first `Return/When/Returns` of a function or method mocker (`m.when == nil`) -/
+def seqFirst (tg : Target) (isM : Bool) (repl : Nat) (ms : MS) (st : Step) : MS × R Unit :=
+  -- first call: build the When, [fill it], remember it, apply
+  let built : R WS := match st with
+    | .ret vals => createWS tg.sig none true (firstReturnValues vals) isM
+    | .when_ args hit => createWS tg.sig args hit none isM
+    | .returns _ => createWS tg.sig none true none isM
+    | _ => rStr .funcDefEmpty        -- AndReturn / In / Matches exist on the handle only
+  match built with
+  | .error e => (ms, .error e)
+  | .ok w0 =>
+    let filled : WS × R Unit := match st with
+      | .returns gs => wReturns tg.sig w0 gs 0
+      | _ => (w0, pure ())
+    match filled with
+    | (_, .error e) => (ms, .error e)     -- the value lists are validated before `m.whens`: nothing is kept
+    | (w1, .ok _) =>
+      match applyByFunc ms.g tg (.fn tg.sig) .none repl with
+      | (g1, .error e) => ({ ms with g := g1, when := some w1 }, .error e)
+      | (g1, .ok _) => (⟨g1, some w1, .whenFn⟩, pure ())
+
 /-- one configuration call on a function (`isM = false`, mocker.go:506-600) or method (`isM = true`, mocker.go:243-340)
-    mocker.  The order inside the first-call paths is the code's: CreateWhen → [`when.Returns(values...)`, which may
-    panic] → `m.whens(when)` (which sets `m.when`) → `m.doApply(m.imp)`. -/
+    mocker.  The order inside the first-call paths (`seqFirst`) is the code's: CreateWhen → [`when.Returns(values...)`,
+    which may panic] → `m.whens(when)` (which sets `m.when`) → `m.doApply(m.imp)`. -/
 def seqStep (tg : Target) (isM : Bool) (repl : Nat) (ms : MS) : Step → MS × R Unit
   | .again => (ms, pure ())
   | .asFn _ => (ms, pure ())
@@ -797,25 +824,7 @@ def seqStep (tg : Target) (isM : Bool) (repl : Nat) (ms : MS) : Step → MS × R
     | some w =>
       let (w1, r) := whenStep tg.sig isM w st
       ({ ms with when := some w1 }, r)
-    | none =>
-      -- first call: build the When, [fill it], remember it, apply
-      let built : R WS := match st with
-        | .ret vals => createWS tg.sig none true (firstReturnValues vals) isM
-        | .when_ args hit => createWS tg.sig args hit none isM
-        | .returns _ => createWS tg.sig none true none isM
-        | _ => rStr .funcDefEmpty        -- AndReturn / In / Matches exist on the handle only
-      match built with
-      | .error e => (ms, .error e)
-      | .ok w0 =>
-        let filled : WS × R Unit := match st with
-          | .returns gs => wReturns tg.sig w0 gs 0
-          | _ => (w0, pure ())
-        match filled with
-        | (_, .error e) => (ms, .error e)     -- the value lists are validated before `m.whens`: nothing is kept
-        | (w1, .ok _) =>
-          match applyByFunc ms.g tg (.fn tg.sig) .none repl with
-          | (g1, .error e) => ({ ms with g := g1, when := some w1 }, .error e)
-          | (g1, .ok _) => (⟨g1, some w1, .whenFn⟩, pure ())
+    | none => seqFirst tg isM repl ms (normFirst st)
 
 /-- run the steps until the first rejection.  Returns the state before the last executed step, the state after it,
     its result, and its index. -/
@@ -861,6 +870,23 @@ def holderStep (m : Sig) (fn : Sig) : Step → R Unit
       | (_, .ok _) => applyIface (.ptrTo .strct true) m (.fn fn)
   | _ => pure ()
 
+/-- the first `Return/When/Returns` of an interface-method mocker (`m.when == nil`, iface.go:112-186) -/
+def ifaceFirst (m : Sig) (is_ : IS) (st : Step) : IS × R Unit :=
+  let fn := is_.fn
+  let built : R WS := match st with
+    | .ret vals => createWS fn none true (firstReturnValues vals) true
+    | .when_ args hit => createWS fn args hit none true
+    | .returns gs => do                                                          -- iface.go:179
+      let w0 ← createWS fn none true none true
+      match wReturns fn w0 gs 0 with | (w1, .ok _) => pure w1 | (_, .error e) => .error e
+    | _ => rStr .funcDefEmpty
+  match built with
+  | .error e => (is_, .error e)
+  | .ok w1 =>
+    match applyIface .ptrIface m (.fn fn) with
+    | .error e => (is_, .error e)
+    | .ok _ => (⟨true, some w1, .whenFn, fn, is_.via⟩, pure ())
+
 /-- a configuration call on the interface variable itself (`Interface(&i)`) -/
 def ifaceMainStep (m : Sig) (is_ : IS) : Step → IS × R Unit
   | .again => (is_, pure ())
@@ -877,20 +903,7 @@ def ifaceMainStep (m : Sig) (is_ : IS) : Step → IS × R Unit
     | some w =>
       let (w1, r) := whenStep fn true w st
       ({ is_ with when := some w1 }, r)
-    | none =>
-      let built : R WS := match st with
-        | .ret vals => createWS fn none true (firstReturnValues vals) true
-        | .when_ args hit => createWS fn args hit none true
-        | .returns gs => do                                                          -- iface.go:179
-          let w0 ← createWS fn none true none true
-          match wReturns fn w0 gs 0 with | (w1, .ok _) => pure w1 | (_, .error e) => .error e
-        | _ => rStr .funcDefEmpty
-      match built with
-      | .error e => (is_, .error e)
-      | .ok w1 =>
-        match applyIface .ptrIface m (.fn fn) with
-        | .error e => (is_, .error e)
-        | .ok _ => (⟨true, some w1, .whenFn, fn, is_.via⟩, pure ())
+    | none => ifaceFirst m is_ (normFirst st)
 
 def isConfigStep : Step → Bool
   | .again | .holder _ | .asFn _ | .lookup _ _ => false
@@ -901,7 +914,7 @@ def ifaceSeqStep (m : Sig) (is_ : IS) (st : Step) : IS × R Unit :=
   | .holder hasMethod =>
     if hasMethod then ({ is_ with via := true }, pure ()) else (is_, rStr .methodNotFound)   -- iface.go:82 on the struct type
   | st =>
-    if is_.via && isConfigStep st then (is_, holderStep m is_.fn st)     -- through Interface(&holder): never installs anything
+    if is_.via && isConfigStep st then (is_, holderStep m is_.fn (normFirst st))     -- through Interface(&holder): never installs anything
     else ifaceMainStep m is_ st
 
 def runIfaceSeq (m : Sig) : IS → List Step → Nat → IS × IS × R Unit × Nat
